@@ -709,7 +709,7 @@ class DisjFlow(Dataflow):
                     wl.append(succ)
         self.state_in = {bb: self._join_all(s) for bb, s in self.states.items()}
 
-    def feasible_reach(self, start, states=None, removed_nodes=(), removed_edges=(), with_states=False):
+    def feasible_reach(self, start, states=None, removed_nodes=(), removed_edges=(), with_states=False, drop_state=None):
         """blocks reachable from block `start` when execution enters it in one of `states` (default: every state the global
         analysis saw there), following only edges the abstract state does not contradict. A subset of the syntactic
         reachability: `let done = matches!(x, Last); if done { return }` does not 'reach' the loop head on the Last edge."""
@@ -744,6 +744,8 @@ class DisjFlow(Dataflow):
                     for succ, ns in self.edge_states(bb, st):
                         if succ in removed_nodes or (bb, succ) in removed_edges:
                             continue
+                        if drop_state is not None and drop_state(ns):
+                            continue     # executions in which the guarding condition came out true are not followed
                         outs.setdefault(succ, set()).add(frozenset(ns.items()))
             for succ, new in outs.items():
                 old = table.get(succ, set())
